@@ -385,4 +385,19 @@ def session (E : Env) (ids : List Bytes) : SessionOut :=
   let so := serverRun E none none (wire (clientMsgs ids))
   ⟨clientRun E.H E.z.dec ids so.written, so⟩
 
+/-- the same session in lock step, one request at a time: the client writes a request, the server
+    reads that message and goes through its switch, the client reads exactly what the server wrote
+    for it — or the end of the stream when the server has returned (`session_lockstep`: the same
+    results as with whole streams) -/
+def lockstep (E : Env) : List Bytes → Bool → List CRes
+  | [], _ => []
+  | _ :: ids, false => .fail (.read .eof) :: lockstep E ids false
+  | id :: ids, true =>
+    match mkRequest true id Gen.CaProtocolRequestHighPriority with
+    | .ok rq =>
+      match arm E true none rq with
+      | .stop _ => .fail (.read .eof) :: lockstep E ids false
+      | .next sent _ => (clientReply E.H E.z.dec id ⟨wire sent, 0⟩).1 :: lockstep E ids true
+    | _ => .fail .notInit :: lockstep E ids true
+
 end Desync.PS
